@@ -383,13 +383,13 @@ Print Assumptions C06_fetch_returns_pushed_file_refuted.
 
 (* known finding file-restore-failed-after-store: restoreDuplicates runs after the content is
    stored; when it fails (here: a layer titled with a name outside the working directory)
-   Push returns the error, yet the manifest exists, a re-push is already-exists, and it is
-   never indexed *)
+   Push returns the error, yet the manifest exists, a re-push is already-exists, and (since
+   the content is indexed before the restore) Predecessors lists it *)
 Theorem C06_failed_noop_file_titled_refuted :
   snd (runf (file_step true false false) file_init
             [Push w_layer w_good; Push w_manifest w_manifest_blob; Exists w_manifest;
              Push w_manifest w_manifest_blob; Preds w_layer])
-    = [FO OOk; FE FTraversal; FO (OBool true); FO (OErr EAlreadyExists); FO (OPreds [])].
+    = [FO OOk; FE FTraversal; FO (OBool true); FO (OErr EAlreadyExists); FO (OPreds [(1, 9, 20)])].
 Proof. exact file_restore_fails_witness. Qed.
 Print Assumptions C06_failed_noop_file_titled_refuted.
 
